@@ -22,18 +22,28 @@ var c08Corpus = []string{
 	`"a\\"`, `"\\"`, `'a\\'`, `x := "a\\"; x`, "\"a\\u005c\"",
 	`r"{{a}}"`, `r'x'`, `"{{a}}"`, `x := r"a\n"`,
 	"/* a */ /* b */ x", "if a { /* c */ b }", "a # c", "a /* c */", "/* a\nb */ x", "x\n\n\ny",
-	"a; -a", "x; (a + b) * c", "x.y(1); (a or b) and c", "x := 1; (a + b) * c", "if true { a }", "if f { a } elif true { b }", "x.rec(1 # c\n)", "return /* c */ a", "mutex m {\na\n}\nb",
+	"x := a([1,2,3,4,5])[0]", "x := (let a) + 1", "sink s kindmatch [\"a\"], priority (1 + 2) { a }", "try { a }\n\nexcept { b }",
+	"mutex m { a }\nb", "(a == (not b)) == c", "(a - (not b)) - c", "(a == not b) in [true,false]", "\"100%\"", "\"\\xff\\xfe\"", "\"caf\\xe9\"",
+	"\"\xff\"", "a; -a", "x; (a + b) * c", "x.y(1); (a or b) and c", "x := 1; (a + b) * c", "if true { a }", "if f { a } elif true { b }", "x.rec(1 # c\n)", "return /* c */ a", "mutex m {\na\n}\nb",
 }
 
 func c08Gen(g *Gen) {
 	seen := map[string]bool{}
+	nEmit := 0
 	emit := func(kind string, src string, ev bool) {
 		if seen[src] {
 			g.Count("duplicate")
 			return
 		}
 		seen[src] = true
-		p, ok := c08Payload(src, ev)
+		nEmit++
+		ff := nEmit%8 == 0
+		for _, k := range []string{"corpus", "string", "stmt.single", "container", "bytes"} {
+			if strings.HasPrefix(kind, k) {
+				ff = true
+			}
+		}
+		p, ok := c08PayloadF(src, ev, ff)
 		if !ok {
 			g.Count("unparseable-skipped." + kind)
 			return
@@ -71,6 +81,82 @@ func c08Gen(g *Gen) {
 			}
 		}
 	}
+
+	// ---- depth 3: a prefix operator as RIGHT operand of an inner operator, the expression continuing with
+	// every outer operator (the prefix operand must not capture the continuation)
+	for _, o1 := range c08Bin {
+		for _, o2 := range c08Bin {
+			for _, p := range c08Pre {
+				emit("nest3.right-prefix", fmt.Sprintf("(t %s (%sf)) %s t", o1, p, o2), true)
+				emit("nest3.right-prefix", fmt.Sprintf("(a %s %sb) %s c", o1, p, o2), true)
+			}
+		}
+	}
+
+	// ---- postfixes after multi-line containers; keywords that parse like prefix operators
+	for _, arg := range []string{"[1,2,3,4,5]", "[1,2,3,4]", "{\"a\":1,\"b\":2,\"c\":3}", "{\"a\":1}", "func () {\nreturn 1\n}", "1"} {
+		for _, f := range []string{"x := a(%s)[0]", "a(%s).b", "a(%s)(1)", "a[%s][0]", "a.b(%s)[0].c", "a(%s).b[0]", "a(1)[%s]", "x.rec(a(%s)[0], 2)",
+			"[a(%s)[0], 1]", "if t {\nx := l[%s]\n}", "a(%s)\n[0]"} {
+			emit("postfix", fmt.Sprintf(f, arg), true)
+		}
+	}
+	for _, e := range []string{"1 + 2", "(1 + 2)", "[\"a\"] + [\"b\"]", "([\"a\"] + [\"b\"])", "-1", "(-1)", "not t", "(1 == 2)", "{\"a\" : 1}", "x.y(1)", "((2))"} {
+		for _, at := range []string{"kindmatch", "scopematch", "statematch", "priority", "suppresses"} {
+			emit("keyword.sink", fmt.Sprintf("sink s kindmatch [\"a\"], %s %s { a }", at, e), true)
+			emit("keyword.sink", fmt.Sprintf("sink s %s %s, priority 1 { a }", at, e), true)
+		}
+	}
+	for _, o := range c08Bin {
+		emit("keyword.let", fmt.Sprintf("x := (let a) %s 1", o), true)
+		emit("keyword.let", fmt.Sprintf("x := 1 %s (let a)", o), true)
+		emit("keyword.let", fmt.Sprintf("(1 %s (let a)) %s 2", o, o), true)
+		emit("keyword.let", fmt.Sprintf("let a %s 1", o), true)
+		emit("keyword.let", fmt.Sprintf("let (a %s 1)", o), true)
+	}
+	for _, p := range c08Pre {
+		emit("keyword.let", fmt.Sprintf("%s(let a)", p), true)
+		emit("keyword.let", fmt.Sprintf("let %sa", p), true)
+	}
+	for _, kw := range []string{"except", "otherwise", "finally", "elif t", "else"} {
+		for _, nl := range []string{" ", "\n", "\n\n", "\n\n\n"} {
+			if strings.HasPrefix(kw, "el") {
+				emit("blank.clause", "if f {\na\n}"+nl+kw+" {\nb\n}", true)
+			} else if kw == "otherwise" {
+				emit("blank.clause", "try {\na\n} except {\nc\n}"+nl+kw+" {\nb\n}", true)
+			} else {
+				emit("blank.clause", "try {\na\n}"+nl+kw+" {\nb\n}", true)
+			}
+		}
+	}
+	for _, blk := range []string{"mutex m {\na\n}", "sink s kindmatch [\"a\"] {\na\n}"} {
+		for _, nl := range []string{"\n", "\n\n", "\n\n\n", "; "} {
+			emit("block.then", blk+nl+"b", true)
+			emit("block.then", blk+nl+"b := 1"+nl+"c", true)
+			emit("block.then", "if t {\n"+blk+nl+"b\n}", true)
+			emit("block.then", blk+nl+blk+nl+"b", true)
+		}
+	}
+
+	// ---- string values with bytes that are not valid UTF-8, and with %
+	batoms := []string{"%", "%d", `\xff`, `\xfe`, `\xe9`, "\xff", "\xc3", "caf", `\\`, `\"`, "é", "{{a}}"}
+	bmax := 2
+	if g.Thorough() {
+		bmax = 3
+	}
+	var brec func(prefix string, n int)
+	brec = func(prefix string, n int) {
+		for _, f := range [][2]string{{`"`, `"`}, {`'`, `'`}, {`r"`, `"`}} {
+			emit("bytes", f[0]+prefix+f[1], true)
+		}
+		emit("bytes.context", "x := [1, 2, 3, 4, \""+prefix+"\"]\nx.rec(\""+prefix+"\")", true)
+		if n == bmax {
+			return
+		}
+		for _, a := range batoms {
+			brec(prefix+a, n+1)
+		}
+	}
+	brec("", 0)
 
 	// ---- statement kinds nested pairwise
 	outer := []string{
